@@ -149,8 +149,11 @@ async fn run(mut sim: Sim, seed: u64, lossy: bool) -> Result<Value, String> {
     let mut cases: Vec<(usize, usize)> = Vec::new();
     for t in 0..7 {
         for p in 0..5 {
-            if (t == 4) != (p == 4) && !(t == 4 && p == 1) {
-                continue; // self address only with the self pin or no pin; self pin only there
+            // the dialer's own address goes with its own identity as the pin or with no pin; its own
+            // identity as the pin is also tried on X's and the adversary's address (nobody but the dialer
+            // holds that key: those dials fail like any other with the wrong party answering)
+            if (t == 4) != (p == 4) && !(t == 4 && p == 1) && !(p == 4 && (t == 0 || t == 3)) {
+                continue;
             }
             if t == 6 && p > 2 {
                 continue;
